@@ -30,10 +30,10 @@ import (
 
 type gvar struct {
 	pkg, name, kind string
-	written        bool
+	written         bool
 }
 type poolFact struct {
-	fn, pool                             string
+	fn, pool                              string
 	deferred, useAfterPut, escapes, noPut bool
 }
 type pwrite struct{ fn, param, how string }
@@ -379,6 +379,9 @@ func exprString(e ast.Expr) string {
 	return "?"
 }
 
+var recycled = map[string]bool{"decodeState": true, "scanner": true, "encodeState": true}
+var poolFields [][2]string
+
 func analysePackage(pkg string, files []string) {
 	fset := token.NewFileSet()
 	var parsed []*ast.File
@@ -392,6 +395,32 @@ func analysePackage(pkg string, files []string) {
 	}
 	pkgVars := map[string]bool{}
 	poolVars := map[string]bool{}
+	// the fields of the structs that are recycled through the pools (state that outlives a call)
+	if pkg == "json" {
+		for _, f := range parsed {
+			for _, d := range f.Decls {
+				gd, ok := d.(*ast.GenDecl)
+				if !ok || gd.Tok != token.TYPE {
+					continue
+				}
+				for _, sp := range gd.Specs {
+					ts := sp.(*ast.TypeSpec)
+					st, ok := ts.Type.(*ast.StructType)
+					if !ok || !recycled[ts.Name.Name] {
+						continue
+					}
+					for _, fl := range st.Fields.List {
+						if len(fl.Names) == 0 {
+							poolFields = append(poolFields, [2]string{ts.Name.Name, exprString(fl.Type)})
+						}
+						for _, n := range fl.Names {
+							poolFields = append(poolFields, [2]string{ts.Name.Name, n.Name})
+						}
+					}
+				}
+			}
+		}
+	}
 	for _, f := range parsed {
 		for _, d := range f.Decls {
 			gd, ok := d.(*ast.GenDecl)
@@ -551,6 +580,19 @@ func main() {
 			sb.WriteString("; ")
 		}
 		sb.WriteString(q(g))
+	}
+	sb.WriteString("].\n\n(* the fields of the structs recycled through sync.Pool: decodeState, scanner, encodeState *)\nDefinition poolfields : list (string * string) := [")
+	sort.Slice(poolFields, func(i, j int) bool {
+		if poolFields[i][0] != poolFields[j][0] {
+			return poolFields[i][0] < poolFields[j][0]
+		}
+		return poolFields[i][1] < poolFields[j][1]
+	})
+	for i, f := range poolFields {
+		if i > 0 {
+			sb.WriteString("; ")
+		}
+		fmt.Fprintf(&sb, "(%s, %s)", q(f[0]), q(f[1]))
 	}
 	sb.WriteString("].\n")
 	target := filepath.Join(out, "FactsGen.v")
